@@ -1,5 +1,5 @@
 (* C19/Properties.v — property theorems only. Each is closed by a lemma of C19/Proofs.v. *)
-From Relic Require Import Base.Prelude Base.Enc Generated.C19_gen C19.Model C19.Proofs.
+From Relic Require Import Base.Prelude Base.Enc Generated.C19_gen C19.Model C19.Proofs C19.Sign C19.SignProofs.
 From Coq Require Import Permutation Sorted.
 
 (* ---- ECDSA signature values: r||s *)
@@ -92,6 +92,121 @@ Theorem relic_comment_invariant : forall ctx s t a l1 d l2,
   relic_c14n ctx (Elem s t a (l1 ++ Comment d :: l2)) = relic_c14n ctx (Elem s t a (l1 ++ l2)).
 Proof. exact C19.Proofs.relic_comment_invariant. Qed.
 
+(* ---- signing and verifying pipelines (C19/Sign.v): xmldsig.Sign is the interpreter of the instruction list srcgen reads from
+   the source, one instruction per statement, so these statements are about the tree state the code digests *)
+(* 0. the builders of the model are the builders of the source; literals *)
+Theorem pipeline_literals_tie :
+  xs_remove_tag = c_Signature /\ xs_create_tag = c_Signature /\ xs_sigattr_key = c_xmlns /\ xs_sigattr_val = ns_xmldsig /\ xs_ref_id = [].
+Proof. exact C19.SignProofs.xs_tags. Qed.
+Theorem signed_info_builder_is_model : forall ref_id ha sa dv c, signed_info_g ref_id ha sa dv c = signed_info ref_id ha sa dv c.
+Proof. exact C19.SignProofs.signed_info_g_eq. Qed.
+(* 1. what the instruction list computes, for every document, every position of the signing parent, every parameter:
+      key guard; RemoveElements(parent, "Signature"); digest of canonical(root); algorithm names (error checked);
+      Signature / SignedInfo with that digest; signature value over canonical(SignedInfo); KeyInfo *)
+Theorem xsign_is_remove_digest_build : forall P ctx0 fs ps pt pa ch,
+  xsign P ctx0 fs ps pt pa ch = xsign_ref P ctx0 fs ps pt pa ch.
+Proof. exact C19.SignProofs.xsign_is_ref. Qed.
+(* 2. the reference digest is taken of the document with EVERY Signature child of the signing parent removed — stale,
+      foreign, valid, one or many — and the parent ends up with exactly the remaining children plus the new Signature;
+      Signature elements anywhere else stay and are digested *)
+Theorem xsign_digest_ignores_existing_signatures : forall P ctx0 fs ps pt pa ch st,
+  xsign P ctx0 fs ps pt pa ch = Ok st ->
+  ref_octets st = relic_c14n ctx0 (plug fs (Elem ps pt pa (strip_sigs ch)))
+  /\ out_parent ps pt pa st = Elem ps pt pa (strip_sigs ch ++ [new_sig st])
+  /\ is_sig_child (new_sig st) = true.
+Proof. exact C19.SignProofs.xsign_digest_ignores_existing_signatures. Qed.
+Theorem xsign_same_digest_when_only_signatures_differ : forall P P' ctx0 fs ps pt pa ch ch' st st',
+  strip_sigs ch = strip_sigs ch' ->
+  xsign P ctx0 fs ps pt pa ch = Ok st -> xsign P' ctx0 fs ps pt pa ch' = Ok st' -> ref_octets st' = ref_octets st.
+Proof. exact C19.SignProofs.xsign_same_digest_when_only_signatures_differ. Qed.
+(* 3. signing what Sign returned again (any key, digest algorithm, options) digests the same octets *)
+Theorem xsign_resign_same_digest : forall P P' ctx0 fs ps pt pa ch st st',
+  xsign P ctx0 fs ps pt pa ch = Ok st ->
+  xsign P' ctx0 fs ps pt pa (echildren (out_parent ps pt pa st)) = Ok st' ->
+  ref_octets st' = ref_octets st /\ s_ch st' = s_ch st.
+Proof. exact C19.SignProofs.xsign_resign_same_digest. Qed.
+(* 4. MAIN: Verify accepts what Sign returns, for every document tree (Signature children of any kind included), every
+      position of the parent whose route from the root is unambiguous, every supported key type and digest; also after
+      the decorations appmanifest applies afterwards (Id attributes, extra children of KeyInfo).  Hypotheses: symbolic
+      cryptography (base64 round trip; the signer's value verifies under the key material it writes), root has no
+      namespace-declaring ancestors (see sign_below_namespace_context_refuted) *)
+Theorem verify_accepts_xsign : forall Hf b64e b64d sig_ok,
+  (forall x, b64d (b64e x) = Some x) ->
+  forall P ctx0 fs ps pt pa ch st xa ka kx,
+  signer_ok Hf b64e sig_ok P -> ctx_nodecl ctx0 = true -> route_ok fs pt = true ->
+  xsign P ctx0 fs ps pt pa ch = Ok st ->
+  forallb nodecl xa = true -> forallb (fun c => negb (keymat c)) kx = true ->
+  exists r,
+    verify (C Hf b64d sig_ok) (plug fs (Elem ps pt pa (s_ch st ++ [deco_sig P (the_si st) (s_si_octets st) xa ka kx]))) (sig_steps fs pt) = Ok r
+    /\ vr_ref_octets r = ref_octets st
+    /\ vr_dv r = sp_digest_text P (ref_octets st)
+    /\ vr_sigpath r = frames_path fs ++ [List.length (s_ch st)]
+    /\ vr_hash r = sp_hash P.
+Proof. exact C19.SignProofs.verify_accepts_xsign. Qed.
+Theorem xsign_output_is_undecorated : forall P fs ps pt pa st ctx0 ch,
+  xsign P ctx0 fs ps pt pa ch = Ok st ->
+  out_root fs ps pt pa st = plug fs (Elem ps pt pa (s_ch st ++ [deco_sig P (the_si st) (s_si_octets st) [] [] []])).
+Proof. exact C19.SignProofs.out_root_plain. Qed.
+(* 5. the recorded digest is the digest of what the DECLARED transforms define (specification: XMLDSIG enveloped-signature
+      transform = the document without the Signature element being verified, then W3C exclusive canonicalisation),
+      whenever the document that is left is in the class K on which relic's canonical form is the W3C one *)
+Theorem xsign_digest_is_declared : forall P ctx0 fs ps pt pa ch st,
+  xsign P ctx0 fs ps pt pa ch = Ok st -> ctx_nodecl ctx0 = true ->
+  inK [] (plug fs (Elem ps pt pa (strip_sigs ch))) = true ->
+  ref_octets st = spec_enveloped_octets (out_root fs ps pt pa st) (frames_path fs ++ [List.length (s_ch st)]).
+Proof. exact C19.SignProofs.xsign_digest_is_declared. Qed.
+(* 5'. the Reference URI="" covers the DOCUMENT: the statement holds for documents without processing instructions outside
+       the document element, and fails for the others (witness <?lead pi?><doc/>, replayed on the real code by the check) *)
+Theorem xsign_digest_is_declared_for_document : forall P ctx0 fs ps pt pa ch st lead trail,
+  xsign P ctx0 fs ps pt pa ch = Ok st -> ctx_nodecl ctx0 = true ->
+  inK [] (plug fs (Elem ps pt pa (strip_sigs ch))) = true ->
+  existsb is_pi lead = false -> existsb is_pi trail = false ->
+  ref_octets st = spec_document_octets lead trail (out_root fs ps pt pa st) (frames_path fs ++ [List.length (s_ch st)]).
+Proof. exact C19.SignProofs.xsign_digest_is_declared_for_document. Qed.
+Theorem pi_outside_document_element_refuted :
+  exists lead rt st,
+    xsign w_ctx_P [[]] [] [] rt [] [] = Ok st /\ inK [] (Elem [] rt [] (strip_sigs [])) = true /\
+    ref_octets st <> spec_document_octets lead [] (out_root [] [] rt [] st) [List.length (s_ch st)].
+Proof. exact C19.SignProofs.pi_outside_document_element_refuted. Qed.
+(* 6. algorithm identifiers: what hashAlgs writes parseAlgs reads back (all key types x digests x naming schemes);
+      anything else is refused, never signed *)
+Theorem algs_roundtrip : forall h kk ms ha sa, hash_algs h kk ms = (ha, sa, false) -> parse_algs ha sa = Ok (h, pub_name kk).
+Proof. exact C19.SignProofs.algs_roundtrip. Qed.
+Theorem xsign_refuses_unsupported : forall P ctx0 fs ps pt pa ch,
+  (~ In (sp_hash P) [3; 4; 5; 6; 7] \/ ~ In (sp_keykind P) [0; 1] \/ sp_ncerts P < 1 \/ sp_same_key P = false) ->
+  is_ok (xsign P ctx0 fs ps pt pa ch) = false.
+Proof. exact C19.SignProofs.xsign_refuses_unsupported. Qed.
+(* 7. appmanifest.Sign on top: the primary digest covers the manifest with the signer's identity fields and without any
+      Signature child of the root; signing a signed manifest again (same identity) digests the same octets; what Sign
+      returns passes both signature checks of appmanifest.Verify *)
+Theorem am_primary_digest : forall I P1 P2 mh rs rt ra ch o,
+  am_sign I P1 P2 mh rs rt ra ch = Ok o ->
+  ref_octets (ao_primary o) = relic_c14n [] (Elem rs rt ra (am_content I ch)).
+Proof. exact C19.SignProofs.am_primary_digest. Qed.
+Theorem am_resign_same_digest : forall I P1 P2 mh P1' P2' mh' rs rt ra ch o o',
+  am_sign I P1 P2 mh rs rt ra ch = Ok o ->
+  am_sign I P1' P2' mh' rs rt ra (echildren (ao_root o)) = Ok o' ->
+  ref_octets (ao_primary o') = ref_octets (ao_primary o).
+Proof. exact C19.SignProofs.am_resign_same_digest. Qed.
+Theorem am_verify_accepts_am_sign : forall Hf b64e b64d sig_ok,
+  (forall x, b64d (b64e x) = Some x) ->
+  forall I P1 P2 mh rs rt ra ch o,
+  signer_ok Hf b64e sig_ok P1 -> signer_ok Hf b64e sig_ok P2 ->
+  fin_attach_cond (zlen (keyinfo_kids P1)) = true -> forallb keymat (keyinfo_kids P1) = true ->
+  am_sign I P1 P2 mh rs rt ra ch = Ok o ->
+  exists r1 r2,
+    am_verify (C Hf b64d sig_ok) (ao_root o) = Ok (r1, r2)
+    /\ vr_ref_octets r1 = ref_octets (ao_primary o) /\ vr_dv r1 = sp_digest_text P1 (ref_octets (ao_primary o))
+    /\ vr_ref_octets r2 = ref_octets (ao_secondary o) /\ vr_dv r2 = sp_digest_text P2 (ref_octets (ao_secondary o))
+    /\ vr_ref_octets r1 = relic_c14n [] (Elem rs rt ra (am_content I ch)).
+Proof. exact C19.SignProofs.am_verify_accepts_am_sign. Qed.
+(* 8. the hypothesis on root's ancestors cannot be dropped (API-level: relic's callers sign document elements) *)
+Theorem sign_below_namespace_context_refuted :
+  exists ctx0 rs rt st r,
+    xsign w_ctx_P ctx0 [] rs rt [] [] = Ok st /\ verify_struct (out_root [] rs rt [] st) (sig_steps [] rt) = Ok r /\
+    vr_ref_octets r <> ref_octets st.
+Proof. exact C19.SignProofs.sign_below_namespace_context_refuted. Qed.
+
 From Coq Require Import String.
 Local Open Scope string_scope.
 (* non-vacuity: a ClickOnce-like subtree with default and prefixed namespaces declared at ancestors is in K *)
@@ -118,3 +233,52 @@ Theorem ctx_undeclare_refuted : diverges (fst w_ctx_undeclare) (snd w_ctx_undecl
 Proof. exact C19.Proofs.ctx_undeclare_refuted. Qed.
 Theorem attr_named_xmlns_refuted : diverges [] w_attr_named_xmlns 5.
 Proof. exact C19.Proofs.attr_named_xmlns_refuted. Qed.
+
+(* ---- non-vacuity of the pipeline theorems *)
+(* <doc><a/><Signature>old</Signature><b><Signature/></b><x:Signature xmlns:x="urn:x"/>t</doc>: two Signature children of
+   the parent (one prefixed), one nested: Sign succeeds, the nested one is digested, the two others are not; Verify's octets
+   are Sign's; signing the result again digests the same octets; the document left is in K *)
+Definition ex_P : sigparams :=
+  SigParams 5 0 1 true true false true false [E "" "KeyValue" [] []] [] (fun o => o) (fun o => o).
+Definition ex_ch : list node :=
+  [E "" "a" [] []; E "" "Signature" [] [CharData (s2b "old")]; E "" "b" [] [E "" "Signature" [] []];
+   E "x" "Signature" [A "xmlns" "x" "urn:x"] []; CharData (s2b "t")].
+Example resign_example :
+  match xsign ex_P [[]] [] [] (s2b "doc") [] ex_ch with
+  | Ok st =>
+      s_ch st = [E "" "a" [] []; E "" "b" [] [E "" "Signature" [] []]; CharData (s2b "t")]
+      /\ inK [] (Elem [] (s2b "doc") [] (s_ch st)) = true
+      /\ (match verify_struct (out_root [] [] (s2b "doc") [] st) (sig_steps [] (s2b "doc")) with
+          | Ok r => vr_ref_octets r = ref_octets st /\ vr_sigpath r = [3%nat]
+          | _ => False end)
+      /\ (match xsign ex_P [[]] [] [] (s2b "doc") [] (echildren (out_parent [] (s2b "doc") [] st)) with
+          | Ok st' => ref_octets st' = ref_octets st
+          | _ => False end)
+  | _ => False
+  end.
+Proof. vm_compute. repeat split. Qed.
+(* the symbolic-cryptography hypotheses are satisfiable *)
+Example signer_ok_example :
+  signer_ok (fun _ o => o) (fun x => x) (fun _ _ _ _ _ => true) ex_P /\ (forall x : bytes, Some ((fun y => y) x) = Some x)
+  /\ fin_attach_cond (zlen (keyinfo_kids ex_P)) = true /\ forallb keymat (keyinfo_kids ex_P) = true
+  /\ route_ok [license_frame (E "" "assemblyIdentity" [] []) [] []] (s2b "issuer") = true /\ ctx_nodecl [[]] = true.
+Proof. repeat split. Qed.
+(* a manifest that carries a foreign Signature and a publisherIdentity: appmanifest.Sign succeeds, both signatures pass the
+   structural half of Verify on the same octets, and signing the result again digests the same octets *)
+Definition ex_I : identity := Identity (s2b "0123456789abcdef") (s2b "CN=x") (s2b "ff").
+Definition ex_man : list node :=
+  [E "" "Signature" [A "" "xmlns" "http://www.w3.org/2000/09/xmldsig#"] [CharData (s2b "stale")];
+   E "" "assemblyIdentity" [A "" "name" "App.exe"; A "" "publicKeyToken" "0000000000000000"] [];
+   E "" "publisherIdentity" [A "" "name" "CN=old"] []; E "" "dependency" [] [E "" "Signature" [] []]].
+Example am_example :
+  match am_sign ex_I ex_P ex_P (fun d => d) (s2b "asmv1") (s2b "assembly") [A "xmlns" "asmv1" "urn:schemas-microsoft-com:asm.v1"] ex_man with
+  | Ok o =>
+      (match am_verify_struct (ao_root o) with
+       | Ok (r1, r2) => vr_ref_octets r1 = ref_octets (ao_primary o) /\ vr_ref_octets r2 = ref_octets (ao_secondary o)
+       | _ => False end)
+      /\ (match am_sign ex_I ex_P ex_P (fun d => d) (s2b "asmv1") (s2b "assembly") [A "xmlns" "asmv1" "urn:schemas-microsoft-com:asm.v1"] (echildren (ao_root o)) with
+          | Ok o' => ref_octets (ao_primary o') = ref_octets (ao_primary o)
+          | _ => False end)
+  | _ => False
+  end.
+Proof. vm_compute. repeat split. Qed.
